@@ -23,7 +23,10 @@ Inductive nsec :=
 | NText (lines : list str)
 | NItems (k : kind) (header : str) (items : list nitem)
 | NAdm (header : str) (lines : list str)
-| NDeprecated (header : str) (version : str) (lines : list str).
+| NDeprecated (header : str) (version : str) (lines : list str)
+(* an Examples section: chunks of prose (false) and console sessions (true), one blank line between them; trim = the
+   value of trim_doctest_flags it was written for *)
+| NExamples (trim : bool) (header : str) (chunks : list (bool * list str)).
 
 Definition s_cs : str := s_of ", ".
 Definition s_colon3 : str := s_of " : ".
@@ -67,6 +70,7 @@ Definition render_nsec (s : nsec) : list str :=
   | NItems k h its => h :: dashes h :: flat_map (n_item_lines k) its
   | NAdm h ls => h :: dashes h :: ls
   | NDeprecated h v ls => h :: dashes h :: v :: map (indent_line 4) ls
+  | NExamples _ h chunks => h :: dashes h :: flatten_chunks chunks
   end.
 
 (* sections are separated by one blank line *)
@@ -126,6 +130,7 @@ Definition n_expect_sec (c : pctx) (s : nsec) : gsec :=
   | NItems k h its => GItems k None (n_expect_items c k (negb (List.length its <=? 1)) 0 its)
   | NAdm h ls => GAdm (n_adm_kind h) h (join_nl ls)
   | NDeprecated h v ls => GItems KDeprecated None [mkItem None (Some v) (join_nl ls) None]
+  | NExamples trim h chunks => GExamples None (map (expect_chunk trim) chunks)
   end.
 
 Definition expect_numpy (c : pctx) (secs : list nsec) : list gsec := map (n_expect_sec c) secs.
@@ -215,8 +220,20 @@ Definition wf_nitem (k : kind) (it : nitem) : bool :=
 Definition wf_body_line (l : str) : bool :=
   all_printable l && (negb (nonempty l) || negb (is_empty_line l)) && negb (is_fence (lower l)) && negb (is_dash_line l).
 
+(* the lines of a free text / of an admonition body with fenced code blocks: between an opening fence line and the next
+   fence line anything printable goes (dash-only lines, blank lines with blanks); every fence is closed *)
+Fixpoint wf_nbody_lines (incode : bool) (ls : list str) : bool :=
+  match ls with
+  | [] => negb incode
+  | l :: r =>
+      all_printable l &&
+      (if incode then wf_nbody_lines (negb (is_fence (lower l))) r
+       else if is_fence (lower l) then wf_nbody_lines true r
+       else (negb (nonempty l) || negb (is_empty_line l)) && negb (is_dash_line l) && wf_nbody_lines false r)
+  end.
+
 Definition wf_body (ls : list str) : bool :=
-  match ls with [] => false | _ => true end && forallb wf_body_line ls && nonempty (last ls []).
+  match ls with [] => false | _ => true end && wf_nbody_lines false ls && negb (is_empty_line (last ls [])).
 
 Definition wf_nheader (h : str) : bool := wf_line0 h && negb (is_fence (lower h)).
 
@@ -255,6 +272,13 @@ Definition wf_nsec (c : pctx) (s : nsec) : bool :=
       wf_nheader h
       && match n_section_kind (lower h) with Some KDeprecated => true | _ => false end
       && wf_line0 v && wf_ndesc false ls
+  | NExamples trim h chunks =>
+      wf_nheader h
+      && match n_section_kind (lower h) with Some KExamples => true | _ => false end
+      && trim                                  (* the theorem is about the default options: trim_doctest_flags=True *)
+      && match chunks with [] => false | _ => true end
+      && forallb wf_chunk chunks && no_adjacent_prose chunks
+      && forallb (fun l => negb (is_dash_line l)) (flatten_chunks chunks)
   end.
 
 Definition n_is_text (s : nsec) : bool := match s with NText _ => true | _ => false end.
